@@ -36,13 +36,16 @@ Has(f, k) == k \in DOMAIN f
 \*   iss, jsub, jclient - claims of a JWT access token ; expOK: exp = stored expiry ; fresh: iat <= now <= exp
 \*   sealed - opaque token: "ok" (decrypts under the provider key to storedID:storedSubject, and not under another key)
 NoTok == [name |-> "none", kind |-> "none", client |-> "none", sub |-> "none", scopes |-> <<>>, aud |-> <<>>,
-          lib |-> "none", iss |-> "none", jsub |-> "none", jclient |-> "none", expOK |-> TRUE, fresh |-> TRUE, sealed |-> "none"]
+          lib |-> "none", iss |-> "none", jsub |-> "none", jclient |-> "none", expOK |-> TRUE, fresh |-> TRUE, sealed |-> "none",
+          \* iatAgo: seconds between iat of a JWT access token and the moment of the response ; expiresOff: expires_in of the response minus
+          \* the remaining lifetime the store recorded (absolute value, seconds)
+          iatAgo |-> 0, expiresOff |-> 0]
 NoRt  == [name |-> "none", client |-> "none", sub |-> "none", scopes |-> <<>>, aud |-> <<>>, auth |-> "none", root |-> "none"]
 \* ID-token record: claims, sig (signature under the provider's CURRENT signing key), lib (rp.VerifyTokens / rp.VerifyIDToken
 \* against the published key set), life (exp - iat, seconds), fresh (iat <= now <= exp), amr, uclaims (user claims present)
 NoIdt == [name |-> "none", sub |-> "none", aud |-> <<>>, azp |-> "none", nonce |-> "none", iss |-> "none",
           athash |-> "absent", chash |-> "absent", auth |-> "none", sig |-> "none", uclaims |-> <<>>,
-          lib |-> "none", life |-> 0, fresh |-> TRUE, amr |-> <<>>]
+          lib |-> "none", life |-> 0, fresh |-> TRUE, amr |-> <<>>, iatAgo |-> 0]
 NoOut == [class |-> "none", status |-> 0, err |-> "none", doc |-> FALSE, req |-> "none", target |-> "none",
           channel |-> "none", state |-> "none", code |-> "none", at |-> NoTok, rt |-> NoRt, idt |-> NoIdt,
           scope |-> <<>>, sub |-> "none", rotated |-> "none", bare |-> TRUE, dc |-> "none", uc |-> "none",
@@ -424,6 +427,8 @@ GrantedScopes(e) ==
   ELSE IF "scopes" \in DOMAIN ReqOf(e) THEN ReqOf(e).scopes
   ELSE Range(e.out.scope)
 
+SkewOf(c) == IF c \in Clients THEN Skew(c) ELSE 0
+Within(x, target, slack) == x + slack >= target /\ x <= target + slack
 RulesIssued(e) ==
   LET o == e.out  idt == o.idt  at == o.at  c == IssuedFor(e)  r == ReqOf(e)
       hasIDT == idt.name # "none"
@@ -434,7 +439,8 @@ RulesIssued(e) ==
     <<"C06.idt.verifies", hasIDT => idt.lib = "ok">>,
     <<"C06.idt.issuer",   hasIDT => idt.iss = IssuerName>>,
     <<"C06.idt.audience", hasIDT => (c \in Range(idt.aud) /\ idt.azp = c)>>,
-    <<"C06.idt.lifetime", hasIDT => (idt.fresh /\ idt.life = IDTLifetime)>>,
+    \* exp and iat bracket the configured lifetime, shifted by the client's clock skew: iat = now - skew, exp = now + skew + lifetime
+    <<"C06.idt.lifetime", hasIDT => (idt.fresh /\ idt.life = IDTLifetime + 2 * SkewOf(c) /\ Within(idt.iatAgo, SkewOf(c), 3))>>,
     <<"C06.idt.at_hash",  hasIDT => (idt.athash # "bad" /\ ((hasAT /\ o.issuedType # "id") => idt.athash = "ok"))>>,
     <<"C06.idt.c_hash",   hasIDT => idt.chash # "bad">>,
     <<"C06.idt.request",  (hasIDT /\ isReq) => (idt.sub = r.sub /\ idt.nonce = r.nonce /\ idt.auth = r.auth /\ idt.amr = <<"pwd">>)>>,
@@ -442,9 +448,9 @@ RulesIssued(e) ==
     <<"C06.idt.userclaims", hasIDT => Range(idt.uclaims) \subseteq UserClaimsOf(GrantedScopes(e))>>,
     <<"C06.at.known",     hasAT => at.name # "unknown">>,
     <<"C06.at.jwt",       (hasAT /\ at.kind = "jwt") => (at.lib = "ok" /\ at.iss = IssuerName /\ at.jsub = at.sub /\ at.jclient = at.client
-                                                         /\ at.expOK /\ at.fresh)>>,
+                                                         /\ at.expOK /\ at.fresh /\ Within(at.iatAgo, SkewOf(at.client), 3))>>,
     <<"C06.at.opaque",    (hasAT /\ at.kind = "opaque") => at.sealed = "ok">>,
-    <<"C06.response.expires", hasAT => o.expiresOff <= 2>>,
+    <<"C06.response.expires", (hasAT /\ at.name # "unknown") => Within(at.expiresOff, SkewOf(at.client), 2)>>,
     <<"C06.response.scope",   (hasAT /\ o.scope # <<>>) => Range(o.scope) = Range(at.scopes)>> }
 
 \* rules that apply to every event, whatever the operation (C09 on the server side)
